@@ -711,6 +711,18 @@ func (g *Graph) defOf1(id *ast.Ident, at Site) (rhs ast.Expr, idx int, tuple boo
 			}
 			return nil, 0, false
 		}
+		if undefined && len(defs) > 0 {
+			// some path from the entry reaches the use without passing a definition (a variable captured from the
+			// enclosing function, or one assigned only further down / in a later iteration): the assignments found are
+			// not what the use sees on that path
+			return nil, 0, false
+		}
+		if undefined {
+			if v, isVar := obj.(*types.Var); isVar && !v.IsField() && f.Body != nil && (v.Pos() < f.Body.Pos() || v.Pos() > f.Body.End()) && v.Pkg() != nil && v.Parent() != v.Pkg().Scope() {
+				// captured from the enclosing function: its value at the use is not decided by what this body assigns
+				return nil, 0, false
+			}
+		}
 	}
 	var found ast.Expr
 	var fidx, n int
